@@ -121,6 +121,9 @@ pub fn hll(max_len: usize) -> (u64, Vec<Viol>) {
             }
         }
     }
+    let (c2, v2) = hll_long();
+    cases += c2;
+    out.extend(v2);
     (cases, out)
 }
 
@@ -167,6 +170,9 @@ pub fn cms(max_len: usize) -> (u64, Vec<Viol>) {
             }
         }
     }
+    let (c2, v2) = cms_long();
+    cases += c2;
+    out.extend(v2);
     (cases, out)
 }
 
@@ -215,6 +221,9 @@ pub fn bloom(max_len: usize) -> (u64, Vec<Viol>) {
             }
         }
     }
+    let (c2, v2) = bloom_long();
+    cases += c2;
+    out.extend(v2);
     (cases, out)
 }
 
@@ -276,6 +285,9 @@ pub fn reservoir(prop: &str, ks: &[usize]) -> (u64, Vec<Viol>) {
             }
         }
     }
+    let (c2, v2) = reservoir_long(prop);
+    cases += c2;
+    out.extend(v2);
     (cases, out)
 }
 
@@ -318,6 +330,230 @@ pub fn cmsheap(max_len: usize) -> (u64, Vec<Viol>) {
                 if let Some(m) = bad {
                     if out.len() < 3 {
                         out.push(viol("C10", &format!("CMSHeap(k={},{}x{})", k, w, d), &seq, split, m));
+                    }
+                }
+            }
+        }
+    }
+    let (c2, v2) = cmsheap_long();
+    cases += c2;
+    out.extend(v2);
+    (cases, out)
+}
+
+
+// ------------------------------------------------------------------------------------------
+// Long single extend calls and iterators whose size_hint is not exact. A batching Extend (blocks of
+// 64, bulk fill-up by announced length) is only wrong beyond its block size or when the announced
+// length differs from the delivered one. Lengths straddle 64 / 128; the stream is delivered three
+// ways: Vec (exact hint), a filter over a stream with interleaved junk (lower 0, upper 2L, L items
+// delivered), from_fn (no hint at all).
+
+const LONG_LENS: [usize; 10] = [1, 63, 64, 65, 66, 127, 128, 129, 130, 300];
+
+fn long_stream(len: usize) -> Vec<u64> {
+    (0..len as u64).map(|i| (i * 2 + 2).wrapping_mul(0x9E37_79B9_7F4A_7C15) | 1).map(|x| x & !1).collect() // even values
+}
+
+/// deliver `items` (all even) through `feed` in one of three ways
+fn deliver<F: FnMut(Box<dyn Iterator<Item = u64>>)>(items: &[u64], mode: usize, mut feed: F) {
+    match mode {
+        0 => feed(Box::new(items.to_vec().into_iter())),
+        1 => {
+            // junk (odd values) interleaved and filtered out again: the hint over-estimates
+            let mut v: Vec<u64> = Vec::with_capacity(items.len() * 2);
+            for &x in items {
+                v.push(x);
+                v.push(x | 1);
+            }
+            feed(Box::new(v.into_iter().filter(|x| x % 2 == 0)))
+        }
+        _ => {
+            let mut it = items.to_vec().into_iter();
+            feed(Box::new(std::iter::from_fn(move || it.next())))
+        }
+    }
+}
+const MODES: [&str; 3] = ["Vec (exact size_hint)", "filter over interleaved junk (size_hint 0..2L)", "from_fn (no size_hint)"];
+
+fn long_viol(prop: &str, what: &str, len: usize, mode: usize, msg: String) -> Viol {
+    Viol {
+        property: prop.into(),
+        signature: format!("{} extend != add loop", what),
+        message: format!("{}: one extend call with {} distinct items delivered as {}: {}", what, len, MODES[mode], msg),
+        replay: json!({"structure": what, "items": "((2i+2) * 0x9E3779B97F4A7C15 mod 2^64) with the lowest bit cleared, i = 0..len", "len": len, "delivery": MODES[mode], "difference": msg}),
+    }
+}
+
+pub fn hll_long() -> (u64, Vec<Viol>) {
+    let (mut cases, mut out) = (0u64, vec![]);
+    for b in [4usize, 12] {
+        for &len in &LONG_LENS {
+            let items = long_stream(len);
+            let mut want: HyperLogLog<u64> = HyperLogLog::new(b);
+            for x in &items {
+                want.add(x);
+            }
+            for mode in 0..3 {
+                cases += 1;
+                let r = mccore::panics::catch(|| {
+                    let mut s: HyperLogLog<u64> = HyperLogLog::new(b);
+                    deliver(&items, mode, |it| s.extend(it));
+                    let mut byref: HyperLogLog<u64> = HyperLogLog::new(b);
+                    byref.extend(items.iter());
+                    (s.registers().to_vec(), s.count(), byref.registers().to_vec())
+                });
+                let bad = match r {
+                    Err(p) => Some(format!("panicked: {}", p)),
+                    Ok((regs, c, rr)) => if regs != want.registers() || c != want.count() { Some(format!("count {} vs {} from the add loop", c, want.count())) } else if rr != want.registers() { Some("Extend<&T> registers differ from the add loop".into()) } else { None },
+                };
+                if let Some(m) = bad {
+                    if out.len() < 3 {
+                        out.push(long_viol("C17", &format!("HyperLogLog(b={})", b), len, mode, m));
+                    }
+                }
+            }
+        }
+    }
+    (cases, out)
+}
+
+pub fn cms_long() -> (u64, Vec<Viol>) {
+    let (mut cases, mut out) = (0u64, vec![]);
+    for (w, d) in [(7usize, 3usize), (64, 4)] {
+        for &len in &LONG_LENS {
+            let items = long_stream(len);
+            let mut want: CountMinSketch<u64> = CountMinSketch::with_params(w, d);
+            for x in &items {
+                want.add(x);
+            }
+            for mode in 0..3 {
+                cases += 1;
+                let r = mccore::panics::catch(|| {
+                    let mut s: CountMinSketch<u64> = CountMinSketch::with_params(w, d);
+                    deliver(&items, mode, |it| s.extend(it));
+                    items.iter().all(|x| s.query_point(x) == want.query_point(x))
+                });
+                let bad = match r { Err(p) => Some(format!("panicked: {}", p)), Ok(true) => None, Ok(false) => Some("point queries differ from the add loop".to_string()) };
+                if let Some(m) = bad {
+                    if out.len() < 3 {
+                        out.push(long_viol("C02", &format!("CountMinSketch(w={},d={})", w, d), len, mode, m));
+                    }
+                }
+            }
+        }
+    }
+    (cases, out)
+}
+
+pub fn bloom_long() -> (u64, Vec<Viol>) {
+    let (mut cases, mut out) = (0u64, vec![]);
+    for (m, k) in [(257usize, 3usize), (4099, 5)] {
+        for &len in &LONG_LENS {
+            let items = long_stream(len);
+            let mut want: BloomFilter<u64> = BloomFilter::with_params(m, k);
+            for x in &items {
+                let _ = want.insert(x);
+            }
+            for mode in 0..3 {
+                cases += 1;
+                let r = mccore::panics::catch(|| {
+                    let mut s: BloomFilter<u64> = BloomFilter::with_params(m, k);
+                    deliver(&items, mode, |it| s.extend(it));
+                    (s.verif_bits() == want.verif_bits(), items.iter().copied().find(|x| !s.query(x)))
+                });
+                let bad = match r {
+                    Err(p) => Some(format!("panicked: {}", p)),
+                    Ok((_, Some(x))) => Some(format!("false negative for {}", x)),
+                    Ok((false, None)) => Some("bit array differs from the insert loop".to_string()),
+                    Ok((true, None)) => None,
+                };
+                if let Some(msg) = bad {
+                    if out.len() < 3 {
+                        out.push(long_viol("C01", &format!("BloomFilter(m={},k={})", m, k), len, mode, msg));
+                    }
+                }
+            }
+        }
+    }
+    (cases, out)
+}
+
+pub fn reservoir_long(prop: &str) -> (u64, Vec<Viol>) {
+    let (mut cases, mut out) = (0u64, vec![]);
+    for k in [1usize, 3, 70] {
+        for &len in &LONG_LENS {
+            let items = long_stream(len);
+            for tail in [Tail::Zero, Tail::Max] {
+                chooser::begin_with(&[], tail, 0);
+                let mut want = ReservoirSampling::new(k, ChoiceRng);
+                let rw = mccore::panics::catch(|| {
+                    for &x in &items {
+                        want.add(x);
+                    }
+                    (want.reservoir().clone(), want.i(), want.is_empty())
+                });
+                chooser::end();
+                for mode in 0..3 {
+                    for pre in [0usize, 2] {
+                        cases += 1;
+                        chooser::begin_with(&[], tail, 0);
+                        let r = mccore::panics::catch(|| {
+                            let mut s = ReservoirSampling::new(k, ChoiceRng);
+                            // pre > 0: the same stream, its first `pre` items by add, the rest by one extend
+                            for &x in items.iter().take(pre.min(items.len())) {
+                                s.add(x);
+                            }
+                            deliver(&items[pre.min(items.len())..], mode, |it| s.extend(it));
+                            (s.reservoir().clone(), s.i(), s.is_empty())
+                        });
+                        chooser::end();
+                        let bad = match (&rw, &r) {
+                            (Ok(a), Ok(b)) if a == b => None,
+                            (Ok(a), Ok(b)) => Some(format!("reservoir len / i / is_empty = {} / {} / {} but the add loop under the same RNG answers gives {} / {} / {}", b.0.len(), b.1, b.2, a.0.len(), a.1, a.2)),
+                            (Err(_), Err(_)) => None,
+                            (Ok(_), Err(p)) => Some(format!("extend panicked: {}", p)),
+                            (Err(p), Ok(_)) => Some(format!("the add loop panicked ({}), extend did not", p)),
+                        };
+                        if let Some(m) = bad {
+                            if out.len() < 3 {
+                                out.push(long_viol(prop, &format!("ReservoirSampling(k={}, rng answers {:?}, first {} items by add)", k, tail, pre), len, mode, m));
+                            }
+                        }
+                    }
+                }
+            }
+        }
+    }
+    (cases, out)
+}
+
+pub fn cmsheap_long() -> (u64, Vec<Viol>) {
+    let (mut cases, mut out) = (0u64, vec![]);
+    for (k, w, d) in [(1usize, 4usize, 2usize), (5, 64, 4)] {
+        for &len in &LONG_LENS {
+            // repeated items so that counts matter: item i % 9
+            let base = long_stream(9);
+            let items: Vec<u64> = (0..len).map(|i| base[(i * i + i / 3) % 9]).collect();
+            let mut want: CMSHeap<u64> = CMSHeap::new(k, CountMinSketch::with_params(w, d));
+            for &x in &items {
+                want.add(x);
+            }
+            let mut wv: Vec<u64> = want.iter().collect();
+            wv.sort_unstable();
+            for mode in 0..3 {
+                cases += 1;
+                let r = mccore::panics::catch(|| {
+                    let mut s: CMSHeap<u64> = CMSHeap::new(k, CountMinSketch::with_params(w, d));
+                    deliver(&items, mode, |it| s.extend(it));
+                    let mut v: Vec<u64> = s.iter().collect();
+                    v.sort_unstable();
+                    v
+                });
+                let bad = match r { Err(p) => Some(format!("panicked: {}", p)), Ok(v) => if v != wv { Some(format!("reports {:?}, the add loop reports {:?}", v, wv)) } else { None } };
+                if let Some(m) = bad {
+                    if out.len() < 3 {
+                        out.push(long_viol("C10", &format!("CMSHeap(k={},{}x{})", k, w, d), len, mode, m));
                     }
                 }
             }
